@@ -52,6 +52,15 @@ PAIRS = {
 }
 
 
+for _L in (127, 128, 129, 256):
+    # skipping an unknown addition / alternative whose encoding needs a long-form length
+    PAIRS['seq-add-long-%d' % _L] = (TAIL + 'X ::= SEQUENCE { a BOOLEAN, ... }',
+                                     TAIL + 'X ::= SEQUENCE { a BOOLEAN, ..., big OCTET STRING (SIZE (%d)) }' % _L)
+    PAIRS['choice-add-long-%d' % _L] = (TAIL + 'X ::= CHOICE { p INTEGER (0..7), ... }',
+                                        TAIL + 'X ::= CHOICE { p INTEGER (0..7), ..., big OCTET STRING (SIZE (%d)) }' % _L)
+QUICK_LONG = (128, 129)
+
+
 class Proj:
     """V1 projection of a V2 value, computed from the two parsed dictionaries"""
 
@@ -100,6 +109,8 @@ def jobs_for(tier):
     jobs = []
     codecs = ['ber', 'der', 'per', 'uper', 'oer']
     for p in PAIRS:
+        if '-long-' in p and tier == 'quick' and int(p.rsplit('-', 1)[1]) not in QUICK_LONG:
+            continue
         for codec in codecs:
             for direction in ('v2-under-v1', 'v1-under-v2'):
                 jobs.append(dict(id='%s/%s/%s' % (p, codec, direction), pair=p, codec=codec, direction=direction,
